@@ -654,7 +654,12 @@ impl Gen {
     }
     fn struct_literal(&mut self, n: &str, depth: usize) -> Value {
         let ms = self.decl(n).ms.clone();
-        let fs: Vec<Value> = ms.iter().map(|(m, t)| json!({"m": m, "e": self.value_of(t, depth)})).collect();
+        let mut fs: Vec<Value> = ms.iter().map(|(m, t)| json!({"m": m, "e": self.value_of(t, depth)})).collect();
+        // (eighth round of seeded changes) a literal may name its members in any order: every third literal -- chosen by its own
+        // text, not by a draw, so that the programs of a seed stay what they were otherwise -- is written back to front
+        if fs.len() >= 2 && serde_json::to_string(&fs).map(|t| t.len() % 3 == 0).unwrap_or(false) {
+            fs.reverse();
+        }
         json!({"k": "st", "n": n, "fs": fs})
     }
     /// an initialiser for any storable type
